@@ -39,7 +39,7 @@ structure Inv (sp : Space) (s : State) : Prop where
       (`FixedAgent.remove` keeps `_mesa_cell`) -/
   cell_mem : ∀ a c, s.cellOf a = some c → a ∈ s.occ c ∨ (s.kinds[a]? = some .fixed ∧ a ∉ s.registry)
   nodup : ∀ c, (s.occ c).Nodup
-  cap : ∀ c k, sp.cap c = some k → k ≠ 0 → (s.occ c).length ≤ k
+  cap : ∀ c k, sp.cap c = some k → (s.occ c).length ≤ k
   /-- the `empty` flag is the truth (non-grid cells have no flag before their first agent) -/
   flag : ∀ c, s.flag c = some (s.occ c).isEmpty ∨ (sp.isGrid = false ∧ s.flag c = none ∧ s.occ c = [])
   known : ∀ a c, s.cellOf a = some c → a < s.kinds.length
@@ -116,14 +116,14 @@ theorem inv_unplace {sp : Space} {s : State} (h : Inv sp s) {a : Aid} {o : Cid}
     by_cases hx : x = o
     · subst hx; rw [upd_same]; exact (h.nodup x).erase _
     · rw [upd_other _ _ _ hx]; exact h.nodup x
-  · intro x k hk hk0
+  · intro x k hk
     simp only [unplace]
     by_cases hx : x = o
     · subst hx; rw [upd_same]
-      have := h.cap x k hk hk0
+      have := h.cap x k hk
       have := List.length_erase_of_mem hm
       omega
-    · rw [upd_other _ _ _ hx]; exact h.cap x k hk hk0
+    · rw [upd_other _ _ _ hx]; exact h.cap x k hk
   · intro x
     simp only [unplace]
     by_cases hx : x = o
@@ -185,14 +185,14 @@ theorem inv_place {sp : Space} {s : State} (h : Inv sp s) {a : Aid} {c : Cid}
       simp at hz; subst hz
       exact hne y x hy
     · rw [upd_other _ _ _ hx]; exact h.nodup x
-  · intro x k hk hk0
+  · intro x k hk
     simp only [place]
     by_cases hx : x = c
     · subst hx; rw [upd_same]
       simp only [fullFor, hk] at hf
-      simp [hk0] at hf
+      simp at hf
       simp; omega
-    · rw [upd_other _ _ _ hx]; exact h.cap x k hk hk0
+    · rw [upd_other _ _ _ hx]; exact h.cap x k hk
   · intro x
     simp only [place]
     by_cases hx : x = c
@@ -247,14 +247,14 @@ theorem inv_detachFixed {sp : Space} {s : State} (h : Inv sp s) {a : Aid} {c : C
     by_cases hx : x = c
     · subst hx; rw [upd_same]; exact (h.nodup x).erase _
     · rw [upd_other _ _ _ hx]; exact h.nodup x
-  · intro x k hk' hk0
+  · intro x k hk'
     simp only [detachFixed]
     by_cases hx : x = c
     · subst hx; rw [upd_same]
-      have := h.cap x k hk' hk0
+      have := h.cap x k hk'
       have := List.length_erase_of_mem hm
       omega
-    · rw [upd_other _ _ _ hx]; exact h.cap x k hk' hk0
+    · rw [upd_other _ _ _ hx]; exact h.cap x k hk'
   · intro x
     simp only [detachFixed]
     by_cases hx : x = c
@@ -270,30 +270,11 @@ theorem inv_detachFixed {sp : Space} {s : State} (h : Inv sp s) {a : Aid} {c : C
 
 /-! ### the code's setters, on states satisfying the invariant -/
 
-theorem full_nonempty {sp : Space} {s : State} {c : Cid} (hf : fullFor sp s c = true) : s.occ c ≠ [] := by
-  unfold fullFor at hf
-  split at hf
-  · simp at hf
-  · rename_i k _
-    simp at hf
-    intro h0
-    rw [h0] at hf
-    simp at hf
-
-/-- a rejected `add_agent` changes nothing: its early `empty = False` hits a non-empty cell -/
-theorem addAgent_full {sp : Space} {s : State} (h : Inv sp s) {c : Cid} (a : Aid)
+/-- a rejected `add_agent` changes nothing (repair SC3: the capacity is checked before anything is written) -/
+theorem addAgent_full {sp : Space} {s : State} (_h : Inv sp s) {c : Cid} (a : Aid)
     (hf : fullFor sp s c = true) : addAgent sp s c a = (s, false) := by
-  have hne := full_nonempty hf
-  have hfl : s.flag c = some false := by
-    rcases h.flag c with h1 | ⟨_, _, h1⟩
-    · rw [h1]; cases hocc : s.occ c with
-      | nil => exact absurd hocc hne
-      | cons x t => rfl
-    · exact absurd h1 hne
   unfold addAgent
   simp only [hf, if_true]
-  have : upd s.flag c (some false) = s.flag := by rw [← hfl]; exact upd_self _ _
-  rw [this]
 
 theorem addAgent_ok {sp : Space} {s : State} {c : Cid} (a : Aid) (hf : fullFor sp s c = false) :
     addAgent sp s c a =
@@ -314,15 +295,12 @@ theorem fullFor_unplace_same {sp : Space} {s : State} (h : Inv sp s) {a : Aid} {
   split
   · rfl
   · rename_i k hk
-    by_cases hk0 : k = 0
-    · simp [hk0]
-    · have := h.cap o k hk hk0
-      have hl := List.length_erase_of_mem hm
-      have hpos : 0 < (s.occ o).length := List.length_pos_of_mem hm
-      simp only [unplace, upd_same]
-      simp
-      intro _
-      omega
+    have := h.cap o k hk
+    have hl := List.length_erase_of_mem hm
+    have hpos : 0 < (s.occ o).length := List.length_pos_of_mem hm
+    simp only [unplace, upd_same]
+    simp
+    omega
 
 theorem fullFor_unplace_other {sp : Space} {s : State} {a : Aid} {o c : Cid} (hc : c ≠ o) :
     fullFor sp (unplace s a o) c = fullFor sp s c := by
